@@ -333,6 +333,11 @@ def main():
     run.bound("all option paths of export/import (extension, grid vs function, data_type, 6 transformations, real/complex, binary flag, tag fallbacks) on 3 grids x 5 index patterns; "
               "the data arrays pass through without data-dependent control flow other than `all indices == 0` and `iscomplexobj`")
     run.bound("real files: octahedron and 2x2 screen, 4 index patterns, ascii and binary; 4 space kinds x node/element x real/complex")
+    # node / element data written by export() are evaluate_on_vertices / evaluate_on_element_centers of the grid function: their values on whole-grid and segment
+    # spaces (area-weighted average over the SUPPORT elements at a vertex) are checked natively against space.evaluate
+    from checks import c13 as _c13
+
+    run.add("export-values.gridfunction-helpers[octa, whole grid + segments, real + complex]", "bounded", _c13.ob_gridfunction_numeric, "octa")
     return run.finish()
 
 
